@@ -1,17 +1,46 @@
 /-
   Props/C14.lean — atom permutations and rotation matrices faithfully represent the space group.
-  PROPERTY THEOREMS ONLY.
+  PROPERTY THEOREMS ONLY (the combinatorial core: lattice translations act freely, p2s_map).
 -/
-import SymfcModel.Model.Cell
+import SymfcModel.Lemmas.Cell
 namespace Symfc.C14
-open Symfc
+open Symfc Symfc.Cell
 
-/-- non-vacuity witness used by the theorems of this file: a shuffled 2×2 lattice with two basis atoms is a
-    well-formed cell (free translation group of order 4 on 8 atoms, identity first) and its independent atoms are
-    the lowest atoms of the two orbits -/
+/-- non-vacuity witness: a shuffled 2×2 lattice with two basis atoms is a well-formed cell (free translation group of
+    order 4 on 8 atoms, identity first) and its independent atoms are the lowest atoms of the two orbits -/
 def demoCell : Cell :=
   { N := 8, tp := #[#[0,1,2,3,4,5,6,7], #[2,3,0,1,6,7,4,5], #[1,0,3,2,5,4,7,6], #[3,2,1,0,7,6,5,4]] }
 
 theorem demoCell_wf : demoCell.wf = true ∧ demoCell.indepAtoms = [0, 4] := by decide +kernel
+
+/-- C14.a: for every well-formed translation table (rows = permutations, identity first, closed under composition,
+    distinct rows differ at every atom) the pure lattice translations form a GROUP of `n_lp` fixed-point-free
+    permutations: closed, with inverses, each row a bijection of the atoms. -/
+theorem translations_form_a_free_group (c : Cell) (hwf : c.wf = true) :
+    0 < c.nlp ∧
+    (∀ l i, l < c.nlp → i < c.N → c.img l i < c.N) ∧
+    (∀ i, i < c.N → c.img 0 i = i) ∧
+    (∀ l i j, l < c.nlp → i < c.N → j < c.N → c.img l i = c.img l j → i = j) ∧
+    (∀ l j, l < c.nlp → j < c.N → ∃ i, i < c.N ∧ c.img l i = j) ∧
+    (∀ l m, l < c.nlp → m < c.nlp → ∃ k, k < c.nlp ∧ ∀ i, i < c.N → c.img k i = c.img l (c.img m i)) ∧
+    (∀ l m, l < c.nlp → m < c.nlp → l ≠ m → ∀ i, i < c.N → c.img l i ≠ c.img m i) ∧
+    (∀ l, l < c.nlp → ∃ k, k < c.nlp ∧ ∀ i, i < c.N → c.img k (c.img l i) = i ∧ c.img l (c.img k i) = i) :=
+  wf_group_facts c hwf
+
+/-- C14.a: every atom orbit under lattice translations has exactly `n_lp` members -/
+theorem every_orbit_has_nlp_members (c : Cell) (hwf : c.wf = true) (i : Nat) (hi : i < c.N) :
+    (orbitList c i).Nodup ∧ (orbitList c i).length = c.nlp ∧ (∀ j, j ∈ orbitList c i ↔ sameOrbit c i j) :=
+  let h := (sameOrbit_equiv c hwf).2.2.2.2 i hi
+  ⟨h.1, h.2.1, h.2.2.1⟩
+
+/-- C14.a: `p2s_map` (= `get_indep_atoms_by_lat_trans`) lists, in increasing order, EXACTLY ONE atom of each
+    orbit, namely its LOWEST-index atom; and `N = n_a · n_lp`. -/
+theorem p2s_map_is_one_lowest_atom_per_orbit (c : Cell) (hwf : c.wf = true) :
+    (c.indepAtoms.Pairwise (· < ·) ∧ ∀ a, a ∈ c.indepAtoms → a < c.N) ∧
+    (∀ i, i < c.N → ∃ a, (a ∈ c.indepAtoms ∧ sameOrbit c a i) ∧
+        ∀ b, (b ∈ c.indepAtoms ∧ sameOrbit c b i) → b = a) ∧
+    (∀ a, a ∈ c.indepAtoms → ∀ l, l < c.nlp → a ≤ c.img l a) ∧
+    c.N = c.indepAtoms.length * c.nlp :=
+  indepAtoms_spec c hwf
 
 end Symfc.C14
